@@ -199,7 +199,8 @@ def main():
                            sites_unreachable_under_contract=getattr(runner.mutant_sweep, "out_of_scope", 0),
                            baseline_not_passing_under_sweep_budget=getattr(runner.mutant_sweep, "invalid", []))
         if real:
-            undecided.append("engine/contract weakness: %d built-in mutants survive: %s" % (len(real), real[:5]))
+            # a surviving mutant marks a contract as weaker than it could be; it says nothing about the property on this tree
+            print("NOTE: %d built-in mutants not listed as equivalent survive (contract weakness, see evidence): %s" % (len(real), real[:5]))
 
     # ------------------------------------------------------------ bounded stand-in / CPython cross-check
     bres = None
